@@ -36,6 +36,7 @@ def _surf(name, mesh, sym, rng, **kw):
     s = pipelines.aero_surface(name, mesh, sym, S_ref_type=str(rng.choice(["wetted", "projected"])),
                                with_viscous=bool(rng.integers(2)), k_lam=float(rng.choice([0.0, 0.05, 0.4, 1.0])),
                                CL0=float(rng.uniform(0, 0.05)), CD0=float(rng.uniform(0, 0.02)))
+    s["symmetry"] = gen.flag(rng, sym)
     s.update(kw)
     return s
 
